@@ -362,6 +362,9 @@ func codecValue(val string, d *driver, k int) *big.Int {
 		return new(big.Int).Sub(two256, one)
 	case "2^255":
 		return new(big.Int).Lsh(one, 255)
+	case "h-1", "h", "h+1": // around (r-1)/2
+		h := new(big.Int).Rsh(new(big.Int).Sub(r, one), 1)
+		return h.Add(h, big.NewInt(int64(map[string]int{"h-1": -1, "h": 0, "h+1": 1}[val])))
 	case "3r":
 		return new(big.Int).Mul(r, big.NewInt(3))
 	case "4r+1":
